@@ -114,6 +114,14 @@ func init() {
 		Assume: append([]string{"the reference derivation (crypto/md5, crypto/aes, cipher.NewCBCEncrypter/NewGCM/NewCTR of the Go standard library) is EVP_BytesToKey(MD5, 1 round) / openssl enc -aes-256-cbc -md md5", "a hex substitution that decodes to the same bytes is not a difference of the encoded message"}, seqAssume...)}
 }
 
+func init() {
+	for _, id := range []string{"C02", "C03", "C09", "C18", "C20"} {
+		p := props[id]
+		p.Real = append(p.Real, "a companion worker (harness/cmd/conf) built with the Go race detector from the UNREWRITTEN tree: two or three simulated threads, each with instances and arguments of its own, interleaved at operation granularity by the Engine-A scheduler")
+		p.Rule += "; the companion worker's runs (threads with private instances) are counted with the others"
+	}
+}
+
 var scratch string
 
 // nondetCode: the determinism self-check failed on the code under test (see checkCmd).
@@ -287,8 +295,33 @@ func prepare(p *propCfg, repo string) (string, error) {
 	if err != nil {
 		return "", fmt.Errorf("build worker: %v\n%s", err, out)
 	}
+	confBin = ""
+	if p.Engine == "C" {
+		// the companion worker of the sequential checks (harness/cmd/conf): thread-confined
+		// instances under the race detector, built from an UNREWRITTEN copy of the tree
+		plain := filepath.Join(base, "plain")
+		pg, ph := filepath.Join(plain, "golib"), filepath.Join(plain, "harness")
+		os.MkdirAll(plain, 0o755)
+		if out, err := run("", nil, "rsync", "-a", "--exclude", ".git", repo+"/", pg+"/"); err != nil {
+			return "", fmt.Errorf("copy repo (plain): %v %s", err, out)
+		}
+		if out, err := run("", nil, "rsync", "-a", "--exclude", "go.mod", verifDir+"/zzsim/", pg+"/zzsim/"); err != nil {
+			return "", fmt.Errorf("copy shims (plain): %v %s", err, out)
+		}
+		if out, err := run("", nil, "rsync", "-a", har+"/", ph+"/"); err != nil {
+			return "", fmt.Errorf("copy harness (plain): %v %s", err, out)
+		}
+		cb := filepath.Join(base, "conf_worker")
+		if out, err := run(ph, goEnv(), "go", "build", "-race", "-o", cb, "./cmd/conf"); err != nil {
+			return "", fmt.Errorf("build conf worker: %v\n%s", err, out)
+		}
+		confBin = cb
+	}
 	return worker, nil
 }
+
+// confBin is the companion worker of the current (Engine C) check, see prepare.
+var confBin string
 
 type violation struct {
 	Class  string `json:"class"`
@@ -469,8 +502,14 @@ func replayOnce(worker, dir string, c caseDoc, strict bool, tag string) (caseDoc
 	if curEngine == "B" {
 		args = append([]string{"-test.timeout=0", "-test.run=^TestWorker$"}, args...)
 	}
+	extra := []string{}
+	if pm, ok := c["params"].(map[string]any); ok && pm["conf"] != nil && confBin != "" {
+		// a case of the companion worker (thread-confined instances)
+		worker = confBin
+		extra = append(extra, "VERIF_CONF_PROP="+fmt.Sprint(c["property"]))
+	}
 	cmd := exec.Command(worker, args...)
-	cmd.Env = workerEnv(dir, 900)
+	cmd.Env = workerEnv(dir, 900, extra...)
 	var buf bytes.Buffer
 	cmd.Stdout = &buf
 	cmd.Stderr = &buf
@@ -583,10 +622,31 @@ func checkCmd(p *propCfg, tier, repo string, writeEvidence bool) int {
 		wrapCh = make(chan map[string]any, 1)
 		go func() { wrapCh <- realWrap(p, dir) }()
 	}
+	var confCh chan []*workerOut
+	if confBin != "" {
+		confCh = make(chan []*workerOut, 1)
+		go func() {
+			pc := *p
+			pc.Engine = "A"
+			co, cerr := explore(&pc, confBin, filepath.Join(scratch, p.ID, "conf"), seed, 2, budget*1000/3, 0, tier, false, "VERIF_CONF_PROP="+p.ID)
+			if cerr != nil {
+				fmt.Fprintf(os.Stderr, "verifctl: conf worker: %v\n", cerr)
+				co = nil
+			}
+			confCh <- co
+		}()
+	}
 	outs, err := explore(p, worker, dir, seed, nW, budget*1000, 0, tier, false)
 	if err != nil {
 		fmt.Fprintf(os.Stderr, "verifctl: %v\n", err)
 		return 2
+	}
+	if confCh != nil {
+		co := <-confCh
+		if co == nil {
+			return 2
+		}
+		outs = append(outs, co...)
 	}
 	agg := aggregate(outs, dir)
 	// embedded determinism self-check: the first 40 runs of worker 0, twice more, fresh
